@@ -17,8 +17,14 @@
 (*             none, the forged-signature twin)                            *)
 (*   isCA      basic constraints CA bit                                    *)
 (*   ekus      extended key usages present                                 *)
-(*   poison    CT poison extension: "none", "ok" (critical, ASN.1 NULL),   *)
-(*             "noncritical", "nonnull"                                    *)
+(*   poison    CT poison extension: "none"; "ok" (critical, value is       *)
+(*             exactly the DER NULL 05 00); every other state is a         *)
+(*             malformed one: "noncritical" (NULL, not critical),          *)
+(*             "nonnull" (another well-formed value), "nullTrailing"       *)
+(*             (05 00 followed by a further byte), "nullTrailingTLV"       *)
+(*             (05 00 followed by a well-formed element), "wrongTag"       *)
+(*             (empty content under another tag), "longFormNull"           *)
+(*             (NULL with the BER length 81 00), "empty" (no value)        *)
 (*   notAfter  an instant (Temporal)                                       *)
 (*   exts      ids of further extensions present                           *)
 (*                                                                         *)
@@ -71,6 +77,7 @@ ChainOK(ch, T) == /\ Len(ch) > 0
 Paths(ch, T) == (IF Last(ch) \in T THEN {ch} ELSE {}) \cup {Append(ch, r) : r \in Anchors(ch, T)}
 
 (* ---------- leaf ---------- *)
+\* the value must BE the NULL, not merely begin with one or decode to one: whatever is not "ok" is malformed
 Kind(c) == CASE c.poison = "none" -> "cert"
              [] c.poison = "ok"   -> "precert"
              [] OTHER             -> "malformed"
